@@ -206,6 +206,12 @@ def run(ctx):
             variants.append({kk: x for kk, x in m.items() if kk != k})
         variants.append({**m, 'zz_extra': 1})
         variants.append({**m, **{f"zz_extra_{j}": j for j in range(8)}})      # more keys than the class has names
+        # big documents (past any "small mapping" threshold), the real keys first, last, and in the middle of the crowd
+        big = {f"zz_extra_{j}": j for j in range(rng.choice((33, 40, 70, 300)))}
+        variants.append({**m, **big})
+        variants.append({**big, **m})
+        half = dict(list(big.items())[:len(big) // 2])
+        variants.append({**half, **m, **big})
         carriers = genval.MAP_CARRIERS + (('defaultdict(int)', lambda d: collections.defaultdict(int, d)),
                                           ('defaultdict(dict)', lambda d: collections.defaultdict(dict, d)),
                                           ('Counter', lambda d: collections.Counter(d) if all(type(x) is int for x in d.values()) else dict(d)))
@@ -236,6 +242,26 @@ def run(ctx):
         return ty
 
     drive.for_each_case(ctx, 'keyed', max(10, ctx.budget // 6), body_keyed, gen=gen_keyed)
+
+    # half-built instances (the public from_dict_unchecked with a partial mapping: plain defaults show through the class, factory
+    # defaults are simply absent): whatever serialising, converting or wrapping them does, it does not finish them off for the caller
+    def body_partial(i, rng, ty, T):
+        import typing as _t
+        from ..tyast import Ty as _Ty, _serial as _ser
+        frozen = rng.random() < 0.5
+        P = type(f"PI{next(_ser)}", (env.PaneBase,), {'__annotations__': {'a': int, 'items': _t.List[int], 'opts': _t.Dict[str, int], 'n': int},
+                                                     'items': env.pfield(default_factory=list), 'opts': env.pfield(default_factory=dict), 'n': 3, '__module__': __name__}, frozen=frozen)
+        H = type(f"PH{next(_ser)}", (env.PaneBase,), {'__annotations__': {'inner': P}, '__module__': __name__})
+        given = rng.choice(({'a': 1}, {'a': 1, 'items': [1]}, {}, {'a': 1, 'n': 4}))
+        x = P.from_dict_unchecked(dict(given))
+        calls = [('into_data', lambda: env.into_data(x, P)), ('x.into_data()', lambda: x.into_data()), ('into_data([x])', lambda: env.into_data([x], _t.List[P])),
+                 ('convert', lambda: env.convert(x, P)), ('Holder(inner=x)', lambda: H(inner=x)), ('Holder.make_unchecked(x).into_data()', lambda: H.make_unchecked(inner=x).into_data()),
+                 ('x.dict()', lambda: x.dict()), ('x.dict(set_only=True)', lambda: x.dict(set_only=True)), ('repr', lambda: repr(x)), ('write_json', lambda: x.write_json())]
+        for api, f in calls:
+            checked(api, i, _Ty('int'), f, (), watch=[x])
+            ctx.count('partial_instance_calls')
+
+    drive.for_each_case(ctx, 'partial', 30, body_partial, gen=lambda c, r: __import__('pv.tyast', fromlist=['Ty']).Ty('int'))
 
     # arrays the caller owns, in the memory layouts numpy hands out: foreign byte order, a strided view, read-only, Fortran order;
     # serialising them, or passing them to a dataclass with an array field, leaves bytes, dtype, strides and flags as they were
